@@ -10,12 +10,21 @@ type bucket []byte
 
 type reader struct {
 	m map[byte][]bucket
+
+	// segs holds for every value in m the segment it was read from.
+	// Segments are separated by list delimiters.
+	segs map[byte][]int
+
+	// When limited is true, only values of segment seg are returned.
+	// This keeps the values of the elements of an inline encoded list apart.
+	limited bool
+	seg     int
 }
 
 func newReader(r io.Reader) (*reader, error) {
-	m, err := read(r)
+	m, segs, err := read(r)
 
-	return &reader{m}, err
+	return &reader{m: m, segs: segs}, err
 }
 
 func (r *reader) readByte(tag byte) (byte, error) {
@@ -38,6 +47,15 @@ func (r *reader) len(tag byte) int {
 	return 0
 }
 
+// segment returns the segment of the next value for tag
+func (r *reader) segment(tag byte) (int, bool) {
+	if segs := r.segs[tag]; len(segs) > 0 {
+		return segs[0], true
+	}
+
+	return 0, false
+}
+
 func (r *reader) readBytes(tag byte) ([]byte, error) {
 	list := r.m[tag]
 
@@ -45,11 +63,18 @@ func (r *reader) readBytes(tag byte) ([]byte, error) {
 		return nil, io.EOF
 	}
 
+	if r.limited && r.segs[tag][0] != r.seg {
+		// the next value belongs to another element
+		return nil, io.EOF
+	}
+
 	b := list[0]
 	if len(list) > 1 {
 		r.m[tag] = append(list[:0], list[1:]...)
+		r.segs[tag] = append(r.segs[tag][:0], r.segs[tag][1:]...)
 	} else {
 		delete(r.m, tag)
+		delete(r.segs, tag)
 	}
 
 	return b, nil
@@ -196,42 +221,43 @@ func (r *reader) readFloat32(tag byte) (float32, error) {
 	}
 }
 
-func read(r io.Reader) (map[byte][]bucket, error) {
+func read(r io.Reader) (map[byte][]bucket, map[byte][]int, error) {
 	var h = map[byte][]bucket{}
+	var segs = map[byte][]int{}
 
 	var tag, n byte
-	var lastItemWasDelimiter bool
+	var seg int
 	for {
 		if err := binary.Read(r, binary.LittleEndian, &tag); err != nil {
 			if err == io.EOF {
 				break
 			}
-			return nil, err
+			return nil, nil, err
 		}
 		if err := binary.Read(r, binary.LittleEndian, &n); err != nil {
-			return nil, err
+			return nil, nil, err
 		}
 
 		var v = make([]byte, n)
 		if err := binary.Read(r, binary.LittleEndian, &v); err != nil {
-			return nil, err
+			return nil, nil, err
 		}
 
 		if len(v) > 0 {
-			if l, ok := h[tag]; ok {
-				if lastItemWasDelimiter {
-					h[tag] = append(l, v)
-				} else {
-					// a further fragment of the last value
-					l[len(l)-1] = append(l[len(l)-1], v...)
-				}
+			if l, ok := h[tag]; ok && segs[tag][len(l)-1] == seg {
+				// a further fragment of the last value
+				l[len(l)-1] = append(l[len(l)-1], v...)
 			} else {
-				h[tag] = []bucket{v}
+				// the first value, or the first value after a delimiter
+				h[tag] = append(h[tag], v)
+				segs[tag] = append(segs[tag], seg)
 			}
 		}
 
-		lastItemWasDelimiter = tag == 0 && n == 0
+		if tag == 0 && n == 0 {
+			seg++
+		}
 	}
 
-	return h, nil
+	return h, segs, nil
 }
